@@ -139,7 +139,11 @@ class Recorder:
         exprs = {}
         for ex in self.exprs_for.get((frame.f_code.co_filename.rsplit("/", 1)[-1], frame.f_lineno), ()):
             try:
-                val = eval(ex, frame.f_globals, f_locals)
+                # as the expression would evaluate if it stood at that line: nested scopes in it (a generator expression,
+                # a lambda) see the function's locals there; with eval that takes one namespace, locals over globals
+                scope = dict(frame.f_globals)
+                scope.update(f_locals)
+                val = eval(ex, scope)
                 n = g.node(val)
                 lv = [n]
                 for _ in range(3):
